@@ -96,6 +96,39 @@ def kv_scenario(rng, kind='all', n_ops=None, size='quick', **over):
     if len(keys) >= 3 and rng.random() < 0.3:
         pre, seed = range_prelude(rng, keys, seed)
         lines += pre + queries(kind, keys, absent)
+    y = rng.random()
+    if y < 0.12:
+        # a marker whose timestamp lies between two puts that live in other (closed) blobs: the newer blob answers
+        # Deleted while an older one still holds a newer record
+        k0 = keys[0]
+        lines += [f'w {k0} 10 - 3 {seed}', 'states', rng.choice(['close_active', 'force always']), 'states',
+                  f'w {k0} {rng.choice([0, 1, 3])} - 3 {seed + 1}', 'states']
+        if rng.random() < 0.5:
+            lines += [rng.choice(['close_active', 'force always']), 'states']
+        lines += [f'd {k0} {rng.choice([5, 7])} - {rng.choice([0, 1])}', 'states', rng.choice(['close_active', 'force always', 'settle']), 'states']
+        seed += 2
+        lines += queries(kind, keys, absent)
+    elif y < 0.18 and kind in ('c02', 'all') and c['dup'] == 1:
+        # more than 20 versions of one key with tied timestamps spread over several blobs (the cross-blob order relies
+        # on a stable sort), then a tying marker followed by further tying puts
+        k0 = keys[0]
+        n0, n1 = rng.randint(11, 14), rng.randint(11, 14)
+        hi, mid, lo = rng.choice([(9, 7, 3), (11, 5, 0), (7, 5, 3)])
+        for i in range(n0):
+            lines += [f'w {k0} {hi if i % 2 == 0 else mid} - {rng.choice([0, 3])} {seed % 250 + 1}', 'states']
+            seed += 1
+        lines += [rng.choice(['close_active', 'force always']), 'states']
+        for i in range(n1):
+            lines += [f'w {k0} {mid if i % 2 == 0 else lo} - {rng.choice([0, 3])} {seed % 250 + 1}', 'states']
+            seed += 1
+        lines += queries(kind, keys[:1], absent[:1])
+        if rng.random() < 0.5:
+            lines += [rng.choice(['close_active', 'force always']), 'states']
+        lines += [f'd {k0} {mid} - 0', 'states']
+        for i in range(rng.randint(4, 8)):
+            lines += [f'w {k0} {mid} - 3 {seed % 250 + 1}', 'states']
+            seed += 1
+        lines += queries(kind, keys[:1], absent[:1])
     p_switch = rng.choice([0.1, 0.25, 0.5])
     p_del = rng.choice([0.0, 0.15, 0.4])
     hot = rng.choice(keys)
@@ -155,6 +188,17 @@ def acct_scenario(rng, size='quick', **over):
             lines += [f'w {rng.choice(keys)} {rng.choice(TS_POOL)} - 10 {seed}', 'states', 'counts', 'fcounts']
             seed += 1
         lines += ['force always', 'states', 'counts', 'fcounts', 'restart', 'states', 'counts', 'fcounts']
+        return lines
+    if rng.random() < 0.15:
+        # an index file whose stored hash does not match (its header is valid): the load into memory that a delete into
+        # that closed blob needs must fall back to regenerating the index from the blob
+        kk = keys[0]
+        for b in range(2):
+            lines += [f'w {kk} {rng.choice([3, 5])} - 10 {seed}', 'states', f'w {keys[1]} 5 - 10 {seed + 1}', 'states', 'close_active', 'states']
+            seed += 2
+        lines += ['settle', 'counts', 'fcounts', 'nomodel', f'restart idmg={rng.choice([0, 1])}:hash' + rng.choice(['', ' lazy']), 'states',
+                  f'd {kk} 9 - 1', 'states', 'counts', 'fcounts', f'w {kk} 11 - 10 {seed}', 'states', 'settle', 'counts', 'fcounts',
+                  'restart', 'states', 'counts', 'fcounts']
         return lines
     nblobs = 1
     damaged = False
@@ -925,7 +969,8 @@ def cancel_scenario(rng, size='quick', **over):
     operations, and a restart that re-parses every blob file (index files removed).  Timestamps are unique and
     increasing and every cancellation is resolved by a restart before the next one, so that the oracle never has to
     guess which of several dropped operations landed."""
-    c, line = cfg_line(rng, dup=1, rt=rng.choice(['ct', 'ct', 'mt']), maxdata=rng.choice([1000000, 1000000, 6]), **over)
+    c, line = cfg_line(rng, dup=1, rt=rng.choice(['ct', 'ct', 'mt']), maxdata=rng.choice([1000000, 1000000, 6]),
+                       dirty=rng.choice([0, 100, 33554432, 33554432]), **over)
     klen = c['key']
     keys = mk_keys(rng, klen, 3)
     absent = absent_keys(rng, klen, keys)
@@ -962,6 +1007,18 @@ def cancel_scenario(rng, size='quick', **over):
             ts += 1
             op = rng.choice([f'd {kk} {ts} - 1', f'd {kk} {ts} - 1', 'restore_active'])
             k = rng.choice([1, 2, 2, 3, 3, 4])
+            z = rng.random()
+            if z < 0.25:
+                # the closed blob carries an un-synced deletion marker when its restore is dropped (the restore has to
+                # sync it first when the dirty-byte limit is small)
+                lines += [f'd {kk} {ts} - 1', 'states']
+                ts += 1
+                op = 'restore_active'
+                k = rng.choice([1, 1, 2, 3])
+            elif z < 0.5:
+                # the blob's bloom buffer is off-loaded when the delete that has to read its index back is dropped
+                lines += [f'offload 100000000 {rng.choice([0, 0, 1])}', 'states']
+                op = f'd {kk} {ts} - 1'
         if rng.random() < 0.15:
             # a write is dropped while its blocking closure is still inside the file write (held there by a `pause`
             # failpoint); the next write starts before that closure has finished
@@ -1005,6 +1062,29 @@ def conc_scenario(rng, size='quick', **over):
     c, line = cfg_line(rng, dup=1, maxdata=maxdata, rt=rng.choice(['mt', 'mt', 'ct']), dirty=rng.choice([0, 4096, 33554432]), **over)
     klen = c['key']
     keys = mk_keys(rng, klen, 2)
+    if rng.random() < 0.15:
+        # two writers of one key with one timestamp, the first stalled inside its file write: whichever wins the tie must
+        # win it again after the index has been rebuilt from the blob file
+        lines = [line.replace(f'maxdata={maxdata}', 'maxdata=1000000'), 'states', f'w {keys[1]} 5 - 10 1', 'states', 'nomodel']
+        for rnd in range(rng.choice([1, 2])):
+            la, lb = rng.choice([(90000, 10), (10, 10), (5000, 300), (300, 90000)])
+            lines += [f'race2 {rng.choice([200, 300])} {keys[0]} {7 + rnd} {la} {2 + 2 * rnd} {lb} {3 + 2 * rnd}', 'states',
+                      f'r {keys[0]}', f'ram {keys[0]}']
+        lines += ['alive', 'settle', 'restart noidx', 'states', f'r {keys[0]}', f'ram {keys[0]}', 'corruptedx']
+        return lines
+    if rng.random() < 0.12:
+        # the worker is stalled while it creates the blob file of a rotation; meanwhile the client closes the active blob
+        # by hand and writes on: afterwards every blob file belongs to a held blob, ids and recency agree, and the answers
+        # survive a restart
+        md = rng.choice([2, 3])
+        lines = [line.replace(f'maxdata={maxdata}', f'maxdata={md}').replace('rt=ct', 'rt=mt'), 'states']
+        for i in range(md):
+            lines += [f'w {keys[0]} 5 - 5 {i + 1}', 'states']
+        lines += ['wait 260', 'nomodel', 'fault create 0 .blob pause:1', f'releaselater 1 {rng.choice([400, 600])}',
+                  f'w {keys[1]} 7 - 5 11 @nodrain', 'close_active', f'w {keys[0]} 7 - 5 12 @nodrain', f'w {keys[0]} 7 - 5 13 @nodrain',
+                  'wait 900', 'quiesce', 'clearfaults', 'states', 'fcounts', f'r {keys[0]}', f'ram {keys[0]}', 'alive', 'settle',
+                  'restart', 'states', 'fcounts', f'r {keys[0]}', f'ram {keys[0]}']
+        return lines
     lines = [line, 'states']
     for i, k in enumerate(keys):
         lines += [f'w {k} 5 - 10 {i + 1}', 'states']
